@@ -1,6 +1,6 @@
 #!/usr/bin/env python3
 """Run every seeded change (and own mutant) against the checks listed for it; write seeded/MATRIX.md and update meta.json."""
-import json, subprocess, sys, os, concurrent.futures as cf
+import json, re, subprocess, sys, os, concurrent.futures as cf
 from pathlib import Path
 V = Path(__file__).resolve().parent.parent
 EXTRA = {"R2C01a": ["C04"], "R2C01b": ["C05"], "R2C02b": ["C03"], "R2C03a": ["C01"], "R2C05a": ["C01"], "R2C06b": ["C05"], "R2C07a": ["C18"],
@@ -26,7 +26,7 @@ for d in sorted((V / "seeded").iterdir()):
     if not d.is_dir(): continue
     if len(sys.argv) > 1 and not d.name.startswith(sys.argv[1]): continue
     sid = d.name
-    prop0 = sid[2:5] if sid.startswith(("R2", "R3", "R4", "R5", "R6", "R7", "R8", "R9")) else sid[:3]
+    prop0 = re.match(r"(?:R\d+)?(C\d\d)", sid).group(1)
     for prop in [prop0] + EXTRA.get(sid, []):
         jobs.append((sid, prop))
 res = {}
